@@ -28,6 +28,9 @@ P<i>; N = the OS thread created inside the `create` call of this life; C = the a
                                      right after the line (`xl ctx X<i> <state>`); the `M unlock` inside a condwait belongs
                                      to the wait
   S xl ret a free                    pjoin, ret free   (pthread_join of the native thread returned inside the call)
+Once the join inside ABT_xstream_free is complete (its jPub), ABTI_xstream_free releases X.sched / X.schedU / X.rootU / P;
+their memory can be recycled by other threads before the names are dropped at the return of the call, so from that point
+only the context lines of the life are projected (the model has no other step there either).
 The model (and the driver's insertion rules, see Driver/XsLife.lean) decide whether the sequence is a behaviour."""
 import collections, re
 from . import t3
@@ -144,7 +147,7 @@ def project(path):
                 x = txt[2]
                 nt = creating.pop(tid, [])
                 S[x] = {"ntid": nt[-1] if nt else None, "exitunit": False, "pubterm": False, "parked": False, "joined": False,
-                        "skip_unlock": set(), "condret": set(), "cause": None}
+                        "skip_unlock": set(), "condret": set(), "cause": None, "closing": False}
                 emit(x, "init", ln)
                 pr.stats["lives"] += 1
                 # the native thread may have popped and started the main scheduler before the stream had a name in the
@@ -199,6 +202,8 @@ def project(path):
             if x not in S or not x.startswith("X") or x == "X0":
                 continue
             st = S[x]
+            if st["closing"]:
+                continue
             isN = tid == st["ntid"]
             act = actor_of(tid, unit)
             fl = inflight.get(act) if act is not None else None
@@ -208,6 +213,13 @@ def project(path):
                     if mine and fl[1] in ("join", "free") and fl[2] == "ctxdone":
                         fl[2] = "pubdone"
                         emit(x, "jPub %d" % (1 if cur == X_TERMINATED else 0), ln)
+                        if fl[1] == "free":
+                            # ABT_xstream_free has finished its join: ABTI_xstream_free now releases the scheduler, its
+                            # ULT, the root ULT and the pool.  Their memory may be handed out again (e.g. to a stream another
+                            # actor is creating) while the names X.sched / X.schedU / X.rootU / P are still in the table, so
+                            # from here on only the context inside the xstream structure (released last, no schedule point
+                            # before the call returns and the names are dropped) is projected.
+                            st["closing"] = True
                     else:
                         emit(x, "getState %d" % (1 if cur == X_TERMINATED else 0), ln)
                         pr.stats["get_state_" + ("TERMINATED" if cur == X_TERMINATED else "RUNNING")] += 1
@@ -293,7 +305,7 @@ def project(path):
             if kind == 20:
                 if p1.startswith("P") and p1[1:].isdigit():
                     x = "X" + p1[1:]
-                    if x in S:
+                    if x in S and not S[x]["closing"]:
                         emit(x, "push", ln)
                         pr.stats["push"] += 1
                 else:
@@ -306,7 +318,7 @@ def project(path):
                             emit(x, "rPush", ln)
             elif kind == 6 and p1.endswith(".schedU"):
                 x = p1.split(".")[0]
-                if x in S and x != "X0" and tid == S[x]["ntid"]:
+                if x in S and x != "X0" and tid == S[x]["ntid"] and not S[x]["closing"]:
                     emit(x, "nFinish", ln)
             continue
         if t in ("M", "R", "W") and len(w) >= 4:
